@@ -169,7 +169,13 @@ Definition spec_oci_tag (d : desc) (r : ref) (t : list (ref * desc)) : list (ref
   let t1 := if ref_eqb r (RDig (d_dig d)) then t else put ref_eqb (RDig (d_dig d)) d t in
   put ref_eqb r d t1.
 
-(* Store.delete: drop every reference whose descriptor content.Equal the target *)
+(* Store.delete: drop every reference whose descriptor content.Equal the target.
+   [untag_fold] walks a snapshot of the tag map (Go map iteration: any order) and
+   deletes the matching references one by one; [spec_untag_equal] is the order-free
+   reading (Proofs/Stores.v: they agree on every lookup, for every snapshot order). *)
+Definition untag_fold (k : gkey) (snapshot t : list (ref * desc)) : list (ref * desc) :=
+  fold_left (fun acc e => if gkey_eqb (gk (snd e)) k then del ref_eqb (fst e) acc else acc) snapshot t.
+
 Definition spec_untag_equal (k : gkey) (t : list (ref * desc)) : list (ref * desc) :=
   filter (fun e => negb (gkey_eqb (gk (snd e)) k)) t.
 
@@ -228,7 +234,7 @@ Definition ospec_step (U : N -> gkey) (s : ospec) (o : op) : ospec * out :=
   | Delete d =>
       match get N.eqb (d_dig d) (sp_content s) with
       | None => (s, OErr ENotFound)
-      | Some _ => (mkSpec (del N.eqb (d_dig d) (sp_content s)) (spec_untag_equal (gk d) (sp_tags s)), OOk)
+      | Some _ => (mkSpec (del N.eqb (d_dig d) (sp_content s)) (untag_fold (gk d) (sp_tags s) (sp_tags s)), OOk)
       end
   | Tags =>
       (s, OTags (map fst (filter (fun e => negb (ref_eqb (fst e) (RDig (d_dig (snd e))))) (sp_tags s))))
